@@ -3,7 +3,7 @@
 #include "c19.h"
 #include "list.h"
 #include "verif_post.h"
-static int freed[16];
+static int freed[32];
 static void el_free(void *p) { if (p != NULL) { int *ip = p; freed[*ip]++; } }
 static int vals[16];
 static int run(KSI_List **out, unsigned *n_in) {
@@ -17,17 +17,26 @@ done:
 }
 void harness(void) {
 	VERIF_ctx_init();
-	for (int i = 0; i < 16; i++) { vals[i] = i; freed[i] = 0; }
+	for (int i = 0; i < 16; i++) vals[i] = i;
+	for (int i = 0; i < 32; i++) freed[i] = 0;
 	KSI_List *l = NULL; unsigned n = 0;
 	C19_ARM();
 	int res = run(&l, &n);
 	C19_DISARM();
 	C19_OUTCOME(res, l != NULL && KSI_List_length(l) == 11);
-	if (l != NULL) CHECK(KSI_List_length(l) == n, "C19.H1 after a failed call the list holds exactly the elements accepted so far");
+	if (l != NULL) {
+		CHECK(KSI_List_length(l) == n, "C19.H1 after a failed call the list holds exactly the elements accepted so far");
+		/* the involved object must remain usable: keep appending to the SAME list without faults (12 more
+		 * elements: crosses at least one growth of the element array) and read everything back */
+		static int more[12]; size_t before = KSI_List_length(l);
+		for (unsigned i = 0; i < 12; i++) { more[i] = 12 + (int)i; int r2 = KSI_List_append(l, &more[i]); CHECK(r2 == KSI_OK, "C19.H1 the list that saw a failed allocation accepts further elements"); }
+		CHECK(KSI_List_length(l) == before + 12, "C19.H1 length after continued use");
+		for (unsigned i = 0; i < 12; i++) { void *e = NULL; int r3 = KSI_List_elementAt(l, before + i, &e); CHECK(r3 == KSI_OK && e == &more[i], "C19.H1 elements appended after the failed call are stored intact"); }
+	}
 	KSI_List_free(l);
-	for (int i = 0; i < 12; i++) CHECK(freed[i] <= 1, "C19.H1 no element destructor runs twice");
+	for (int i = 0; i < 24; i++) CHECK(freed[i] <= 1, "C19.H1 no element destructor runs twice");
 	/* fault-free repetition */
-	for (int i = 0; i < 16; i++) freed[i] = 0;
+	for (int i = 0; i < 32; i++) freed[i] = 0;
 	l = NULL;
 	res = run(&l, &n);
 	CHECK(res == KSI_OK && KSI_List_length(l) == 11, "C19.H1 the operation repeated without fault succeeds");
